@@ -1356,6 +1356,15 @@ fn run_dtor(node: Node, dtor: Dtor) -> Option<Vec<Val>> {
         (Node::OwnRetry(c), Dtor::IntoIter) => Some(leaf_vals((*c).into_iter().collect(), &[])),
         (Node::OwnRetry(mut c), Dtor::GetMut) => Some(mut_vals(c.get_mut(), &[])),
         (Node::OwnRetry(mut c), Dtor::ChildMut) => Some(mut_vals(LockableGetMut::get_mut(c.child_mut()), &[])),
+        (Node::OwnRetry(mut c), Dtor::IterMut) => Some(c.iter_mut().map(|l| { let m = LockableGetMut::get_mut(l); (m.pay.lid, m.pay.peek(), m.layers) }).collect()),
+        (Node::OwnRetry(mut c), Dtor::AsMut) => {
+            let inner: &mut CL = AsMut::as_mut(&mut *c);
+            Some(mut_vals(LockableGetMut::get_mut(inner), &[]))
+        }
+        (Node::OwnOwned(mut c), Dtor::AsMut) => {
+            let inner: &mut CL = AsMut::as_mut(&mut *c);
+            Some(mut_vals(LockableGetMut::get_mut(inner), &[]))
+        }
         (Node::OwnOwned(c), Dtor::IntoChild) => Some(leaf_vals(c.into_child().into_vec(), &[])),
         (Node::OwnOwned(c), Dtor::IntoInner) => Some(out_vals(c.into_inner().into_vec(), &[])),
         (Node::OwnOwned(c), Dtor::IntoIter) => Some(leaf_vals((*c).into_iter().collect(), &[])),
